@@ -3,6 +3,8 @@
 seed=${1:-0}; shift
 props=${@:-C01 C02 C03 C04 C05 C06 C07 C08 C09 C10 C11 C12 C13 C14 C15 C16 C17 C18 C19}
 here="$(cd "$(dirname "$0")/.." && pwd)"
+# snapshot runs (vp run) live elsewhere: the harness finds the repository through ../../repo
+[ -e "$here/../repo" ] || ln -s /repo "$here/../repo"
 for p in $props; do
   s=$(date +%s)
   out=$(VERIF_SEED=$seed "$here/check" $p thorough 2>&1); rc=$?
